@@ -7,6 +7,11 @@ Decided (structural, necessary conditions):
               (directly or through a parameter it is passed in) only in None/truth tests.
  D2 R-EFFECT  the far-field computation writes nothing that the solve pipeline reads
               (requesting a pattern over real ground cannot feed back into the currents).
+ D3 R-POLY    the medium under a ground reflection is selected by the position of the specular point
+              (pulse position + specular distance * azimuth direction), for the linear and the circular
+              boundary, as a polynomial identity on the closed expression that is compared with the
+              media boundaries (necessary for "a medium beyond every reflection point changes nothing"
+              and for the invariance under splitting a medium).
  floor        the analysis does see the Medium reads of the far field (>= 5) - guards vacuity.
 Not decided: convergence to ideal ground, medium splitting, far boundaries (numeric).
 """
@@ -66,6 +71,146 @@ def enclosing(n):
     while p is not None and not isinstance(p, ast.stmt):
         p = parent(p)
     return p if p is not None else n
+
+
+def reflection_point(ctx, ck):
+    """R-POLY.reflection-point: the medium under a reflection is chosen by comparing the media boundaries
+    with the position of the specular point: the pulse position moved by the specular distance t along the
+    azimuth direction (cos a, sin a).  With the azimuth phasor e^{-ja} (or e^{+ja}) that is
+        linear boundary   : x + t * Re
+        circular boundary : sqrt((x + t * Re)^2 + (y -/+ t * Im)^2)
+    decided as polynomial identities on the closed expression of the compared quantity (the statements
+    between its first assignment and the comparison walked symbolically, np.hypot / sqrt / ** 0.5 /
+    in-place squaring all giving the same closed form)."""
+    from ..symx import SymExec
+    from ..poly import Poly, poly_sym, cancel
+    from ..dataflow import product_of
+    rule = 'R-POLY.reflection-point'
+    ck.rule(rule, 'medium selected by the specular point = pulse position + distance * azimuth direction')
+    f = ctx.flat(FAR)
+    fl = ctx.flow(f)
+    # azimuth phasor and its sign convention
+    sgn = {}
+    for s_ in walk_no_nested(f.node):
+        if isinstance(s_, ast.Assign) and isinstance(s_.targets[0], ast.Name) and isinstance(s_.value, ast.BinOp) and \
+           isinstance(s_.value.op, ast.Pow) and norm(s_.value.left) == 'np.e':
+            ex = fl.inline(s_.value.right, fl.node_id_of(s_), depth=3)
+            if 'azimuth' in norm(ex) or 'azi' in norm(ex):
+                pr_ = product_of(ex)
+                if pr_.coef in (1j, -1j) or abs(abs(pr_.coef) - 1 / 180) < 1e-15:
+                    sgn[s_.targets[0].id] = -1 if pr_.coef.imag < 0 else 1
+    if len(sgn) != 1:
+        raise AnalysisError('%s: azimuth phasor e^(-j azimuth) not found (%s)' % (FAR, sorted(sgn)))
+    phasor, conv = list(sgn.items())[0]
+    # the comparison with the media boundaries
+    cands = []
+    for n in walk_no_nested(f.node):
+        if isinstance(n, ast.Compare) and len(n.ops) == 1 and isinstance(n.ops[0], (ast.Gt, ast.GtE, ast.Lt, ast.LtE)):
+            nid = fl.node_id_of(n)
+            sides = [n.left, n.comparators[0]]
+            rs = [fl.roots(x_, nid) for x_ in sides]
+            has = [('attrname', 'coord') in r_ and ('attr', 'self.current') not in r_ for r_ in rs]
+            if has[0] != has[1]:
+                cands.append((n, sides[1] if has[0] else sides[0]))
+    if len(cands) != 1 or not isinstance(cands[0][1], ast.Name):
+        raise AnalysisError('%s: comparison of the specular point with the media boundaries not found (%d candidates)'
+                            % (FAR, len(cands)))
+    cmp_, dist = cands[0]
+    st = enclosing(cmp_)
+    blk = None
+    for x_ in ast.walk(f.node):
+        for fld in ('body', 'orelse', 'finalbody'):
+            lst = getattr(x_, fld, None)
+            if isinstance(lst, list) and any(y_ is st for y_ in lst):
+                blk = lst
+    if blk is None:
+        raise AnalysisError('%s: block of the media comparison not found' % FAR)
+    icmp = [i_ for i_, y_ in enumerate(blk) if y_ is st][0]
+    first = [i_ for i_, y_ in enumerate(blk[:icmp]) if isinstance(y_, ast.Assign) and
+             any(isinstance(t_, ast.Name) and t_.id == dist.id for t_ in y_.targets) and
+             not any(isinstance(z_, ast.Name) and z_.id == dist.id and isinstance(z_.ctx, ast.Load) for z_ in ast.walk(y_.value))]
+    if not first:
+        raise AnalysisError('%s: the compared distance %s is not computed in the block of the comparison' % (FAR, dist.id))
+    paths = [p_ for p_ in SymExec(ctx, f, expand=False).run(stmts=blk[first[-1]:icmp]) if p_.end is None]
+    # azimuth element: <phasor>[i] or the loop element of a loop over (enumerate of) the phasor
+    elems = set()
+    for l_ in ast.walk(f.node):
+        if isinstance(l_, ast.For):
+            it_ = l_.iter
+            tg = l_.target
+            if isinstance(it_, ast.Call) and isinstance(it_.func, ast.Name) and it_.func.id == 'enumerate' and len(it_.args) == 1 \
+               and isinstance(tg, ast.Tuple) and len(tg.elts) == 2:
+                it_, tg = it_.args[0], tg.elts[1]
+            if isinstance(it_, ast.Name) and it_.id == phasor and isinstance(tg, ast.Name):
+                elems.add(tg.id)
+    c_, s_ = Poly.var('cos'), Poly.var('sin')
+
+    def strip_t(e_):
+        while isinstance(e_, ast.Attribute) and e_.attr == 'T':
+            e_ = e_.value
+        return e_
+
+    def resolve(e_):
+        if isinstance(e_, ast.Attribute) and e_.attr == 'T':
+            return poly_sym(e_.value, {}, resolve)
+        if isinstance(e_, ast.Attribute) and e_.attr in ('real', 'imag'):
+            b_ = e_.value
+            is_el = (isinstance(b_, ast.Name) and b_.id in elems) or \
+                (isinstance(b_, ast.Subscript) and isinstance(b_.value, ast.Name) and b_.value.id == phasor)
+            if is_el:
+                return c_ if e_.attr == 'real' else s_ * Poly.const(conv)
+        if isinstance(e_, ast.Subscript) and isinstance(e_.slice, ast.Constant) and e_.slice.value in (0, 1, 2):
+            b_ = strip_t(e_.value)
+            if isinstance(b_, ast.Attribute) and b_.attr == 'point':
+                return Poly.var('xyz'[e_.slice.value])
+        return None
+
+    def squared_distance(e_):
+        """Poly of e_^2 when e_ is sqrt(E) / E ** 0.5 / hypot(A, B); None otherwise"""
+        if isinstance(e_, ast.Call) and (dotted(e_.func) or '').split('.')[-1] == 'sqrt' and len(e_.args) == 1:
+            return poly_sym(e_.args[0], {}, resolve)
+        if isinstance(e_, ast.Call) and (dotted(e_.func) or '').split('.')[-1] == 'hypot' and len(e_.args) == 2:
+            a_, b_ = [poly_sym(x_, {}, resolve) for x_ in e_.args]
+            return a_ * a_ + b_ * b_
+        if isinstance(e_, ast.BinOp) and isinstance(e_.op, ast.Pow) and isinstance(e_.right, ast.Constant) and e_.right.value == 0.5:
+            return poly_sym(e_.left, {}, resolve)
+        return None
+    seen = {}
+    for p_ in paths:
+        v_ = p_.env.get(dist.id)
+        lin = [b_ for t_, b_ in p_.conds if isinstance(b_, bool) and t_ == "self.boundary == 'linear'"]
+        kind = 'linear' if (lin and lin[-1]) else ('circular' if lin else 'any')
+        if v_ is None:
+            seen[kind] = (False, 'the compared distance is not assigned on the path')
+            continue
+        try:
+            sq = squared_distance(v_)
+            got = cancel(sq) if sq is not None else cancel(poly_sym(v_, {}, resolve))
+            names = {v for mono in got.t for v, e in mono} - {'cos', 'sin', 'x', 'y', 'z'}
+            if len(names) != 1:
+                seen[kind] = (False, 'not of the form position + distance * direction: %s' % norm(v_)[:100])
+                continue
+            t_ = Poly.var(sorted(names)[0])
+            X = Poly.var('x') + t_ * c_
+            Y = Poly.var('y') + t_ * s_
+            if sq is None:
+                ok_ = cancel(got - X).t == {}
+                form = 'x + t cos(a)'
+            else:
+                ok_ = cancel(got - (X * X + Y * Y)).t == {}
+                form = 'sqrt((x + t cos(a))^2 + (y + t sin(a))^2)'
+            want_kind = 'linear' if sq is None else 'circular'
+            if kind not in ('any', want_kind):
+                ok_ = False
+            seen[kind] = (ok_, ('%s boundary: specular point at %s' % (kind, form)) if ok_ else
+                          '%s boundary: the compared position is %s, which is not %s with (cos a, sin a) = (Re, %sIm) of the '
+                          'azimuth phasor' % (kind, norm(v_)[:110], 'x + t cos(a)' if kind == 'linear' else
+                                              'sqrt((x + t cos(a))^2 + (y + t sin(a))^2)', '-' if conv < 0 else ''))
+        except ValueError as e_:
+            seen[kind] = (False, 'compared position not understood: %s' % e_)
+    ck.floor('boundary forms of the specular-point comparison', len(seen), 2)
+    for kind, (ok_, why) in sorted(seen.items()):
+        ck.ob(rule, '%s|%s' % (FAR, kind), ok_, f.loc(st), why)
 
 
 def run(ctx, ck):
@@ -182,5 +327,6 @@ def run(ctx, ck):
               % (e.mode, e.cls, e.attr))
     ck.ob('R-EFFECT.farfield-no-feedback', FAR + '|closure', not fb, far.loc(),
           'far-field closure (%d functions) writes only its own results' % len(far_seen))
+    reflection_point(ctx, ck)
     ck.undecided += ['convergence of the real-ground pattern to the ideal-ground pattern',
                      'invariance under medium splitting / far boundaries (numeric)']
